@@ -3214,13 +3214,13 @@ class EntityFixup(MutableMapping[str, str]):
     def __copy__(self) -> 'EntityFixup':
         fix = EntityFixup.__new__(EntityFixup)
         fix._matcher = self._matcher
-        fix._fixup = self._fixup.copy()
+        fix._fixup = {key: FixupValue(val.var, val.value, val.id) for key, val in self._fixup.items()}
         return fix
 
     def __deepcopy__(self, memodict: Optional[dict[int, Any]] = None) -> 'EntityFixup':
         fix = EntityFixup.__new__(EntityFixup)
         fix._matcher = self._matcher
-        fix._fixup = self._fixup.copy()
+        fix._fixup = {key: FixupValue(val.var, val.value, val.id) for key, val in self._fixup.items()}
         return fix
 
     def __getstate__(self) -> list[FixupValue]:
